@@ -723,3 +723,125 @@ func ruleR01j(c *Ctx) {
 	c.check(good, "R01j", "soyhtml.state.evalPrint undefined-before-directives", at, "the expression's value is tested for undefined, and the print fails, before any directive is applied",
 		"no statement before the directive loop rejects an undefined expression value: a directive that accepts undefined (|json prints null) turns a print of a missing value into output instead of an error")
 }
+
+// R01k: a \uNNNN escape has four hexadecimal digits, values 0 to 0xFFFF. Wherever the string helpers of the
+// parser decode hexadecimal digits with strconv, the bit size admits that whole range: ParseInt needs 0 or at
+// least 17 (it is a signed width: 16 stops at 0x7FFF), ParseUint 0 or at least 16.
+func ruleR01k(c *Ctx) {
+	p := c.pkg("parse")
+	if p == nil {
+		return
+	}
+	info := p.TypesInfo
+	n := 0
+	for _, fd := range c.allFuncDecls("parse") {
+		if strings.HasSuffix(c.Fset.Position(fd.Pos()).Filename, "_test.go") {
+			continue
+		}
+		ord := 0
+		ast.Inspect(fd.Body, func(x ast.Node) bool {
+			call, ok := x.(*ast.CallExpr)
+			if !ok || len(call.Args) != 3 {
+				return true
+			}
+			cal := calleeFunc(call, info)
+			if cal == nil || (cal.FullName() != "strconv.ParseInt" && cal.FullName() != "strconv.ParseUint") {
+				return true
+			}
+			base, bits := info.Types[call.Args[1]].Value, info.Types[call.Args[2]].Value
+			if base == nil || bits == nil {
+				return true
+			}
+			bv, _ := constant.Int64Val(base)
+			kv, _ := constant.Int64Val(bits)
+			if bv != 16 {
+				return true
+			}
+			// only the decoding of escapes (a cut of a string), not of hexadecimal integer literals
+			if _, isSlice := ast.Unparen(call.Args[0]).(*ast.SliceExpr); !isSlice {
+				if id, ok := ast.Unparen(call.Args[0]).(*ast.Ident); !ok || !strings.Contains(c.declKey("parse", fd), "nquote") && !strings.Contains(strings.ToLower(id.Name), "hex") {
+					return true
+				}
+			}
+			n++
+			ord++
+			min := int64(17)
+			if cal.Name() == "ParseUint" {
+				min = 16
+			}
+			c.check(kv == 0 || kv >= min, "R01k", fmt.Sprintf("%s hex-escape-width#%d", c.declKey("parse", fd), ord), call.Pos(),
+				"the bit size admits every four-digit escape", fmt.Sprintf("%s(…, 16, %d) rejects part of the range of a four-digit escape (a signed %d-bit value stops at 0x%X): valid literals such as '\\\\uFFFF' or '\\\\u9EC4' become parse errors", cal.Name(), kv, kv, (int64(1)<<uint(kv-1))-1))
+			return true
+		})
+	}
+	c.floor("R01k", "hexadecimal escape decodings in the parser", 1, n)
+}
+
+// R01l: a null-safe access on a missing value ends the whole data reference with null ($a?.b.c is null when
+// $a is null, as in the language and in the generated JavaScript, which guards the entire rest of the chain):
+// in evalDataRef the path on which isNullSafeAccess holds returns null at once; it does not go on to the
+// next access with a null in hand (the next plain access would then fail).
+func ruleR01l(c *Ctx) {
+	p := c.pkg("soyhtml")
+	fd := c.mustFunc("soyhtml", "state.evalDataRef")
+	if p == nil || fd == nil {
+		return
+	}
+	info := p.TypesInfo
+	isNullReturn := func(s ast.Stmt) bool {
+		r, ok := s.(*ast.ReturnStmt)
+		if !ok || len(r.Results) != 1 {
+			return false
+		}
+		tv, ok := info.Types[r.Results[0]]
+		if !ok {
+			return false
+		}
+		_, tn, ok := relPkgOfType(tv.Type)
+		return ok && tn == "Null"
+	}
+	n := 0
+	var visit func(list []ast.Stmt)
+	visit = func(list []ast.Stmt) {
+		for i, st := range list {
+			ast.Inspect(st, func(x ast.Node) bool {
+				switch b := x.(type) {
+				case *ast.BlockStmt:
+					visit(b.List)
+					return false
+				case *ast.CaseClause:
+					visit(b.Body)
+					return false
+				}
+				return true
+			})
+			ifs, ok := st.(*ast.IfStmt)
+			if !ok {
+				continue
+			}
+			cond := ast.Unparen(ifs.Cond)
+			neg := false
+			if ue, ok := cond.(*ast.UnaryExpr); ok && ue.Op == token.NOT {
+				neg, cond = true, ast.Unparen(ue.X)
+			}
+			call, ok := cond.(*ast.CallExpr)
+			if !ok {
+				continue
+			}
+			if cal := calleeFunc(call, info); cal == nil || cal.Name() != "isNullSafeAccess" {
+				continue
+			}
+			n++
+			good := false
+			if !neg {
+				good = len(ifs.Body.List) > 0 && isNullReturn(ifs.Body.List[len(ifs.Body.List)-1])
+			} else if i+1 < len(list) {
+				good = isNullReturn(list[i+1])
+			}
+			c.check(good, "R01l", "soyhtml.state.evalDataRef null-safe-ends-the-reference#"+itoa(n), ifs.Pos(), "the null-safe path returns null for the whole reference",
+				"where a null-safe access meets a missing value evalDataRef does not return null at once: it carries on with the following accesses, so $a?.b.c fails on a null $a although the language (and the generated JavaScript) yields null")
+		}
+	}
+	visit(fd.Body.List)
+	c.floor("R01l", "null-safe tests in evalDataRef", 1, n)
+}
